@@ -284,6 +284,13 @@ func verifC18GatherHost() {
 	a.loop = verifLoop()
 	n, all := verifBuildNetK(1, false)
 	a.net = n
+	// the configured port range may be used up on ONE address (ports are per
+	// IP): that address yields no candidate, every other one is unaffected
+	busy := verifChoice(3) - 1
+	if busy >= 0 {
+		n.busyIP = all[busy].ip.String()
+		verifReach("port-range-exhausted-on-one-address")
+	}
 	ntKind := verifChoice(5)
 	if ntKind == 4 {
 		ntKind = 5 // udp4 + tcp6: no UDP host candidate may appear on an IPv6 address
@@ -305,8 +312,8 @@ func verifC18GatherHost() {
 	a.gatherCandidatesLocal(context.Background(), a.networkTypes)
 
 	published := w.notifiedCands()
-	for _, x := range all {
-		eligible := verifAddrEligible(x, a.networkTypes, a.includeLoopback, "", rejectLast)
+	for xi, x := range all {
+		eligible := verifAddrEligible(x, a.networkTypes, a.includeLoopback, "", rejectLast) && xi != busy
 		linkLocal := x.v6 && verifAnd(x.ip[0] == 0xfe, x.ip[1]&0xc0 == 0x80)
 		linkLocalM := x.v6 && verifAnd(x.ip[0] == 0xff, x.ip[1]&0x0f == 0x02)
 		hidden := verifAnd(a.mDNSMode != MulticastDNSModeQueryAndGather, verifOr(linkLocal, linkLocalM))
